@@ -10,6 +10,7 @@ import (
 	"github.com/form3tech-oss/f1/v2/internal/options"
 	"github.com/form3tech-oss/f1/v2/internal/progress"
 	"github.com/form3tech-oss/f1/v2/internal/run/views"
+	"github.com/form3tech-oss/f1/v2/internal/verifhook"
 )
 
 type Result struct {
@@ -88,6 +89,7 @@ func (r *Result) Error() error {
 func (r *Result) Summary() *views.ViewContext[views.ResultData] {
 	r.mu.RLock()
 	defer r.mu.RUnlock()
+	verifhook.Yield("result.nested_read")
 
 	return r.views.Result(views.ResultData{
 		SuccessfulIterationCount:     r.snapshot.SuccessfulIterationDurations.Count,
@@ -107,6 +109,7 @@ func (r *Result) Summary() *views.ViewContext[views.ResultData] {
 func (r *Result) Failed() bool {
 	r.mu.RLock()
 	defer r.mu.RUnlock()
+	verifhook.Yield("result.nested_read")
 
 	opts := r.runOptions
 
@@ -141,6 +144,7 @@ func (r *Result) HasDroppedIterations() bool {
 func (r *Result) Setup() *views.ViewContext[views.SetupData] {
 	r.mu.RLock()
 	defer r.mu.RUnlock()
+	verifhook.Yield("result.nested_read")
 
 	return r.views.Setup(views.SetupData{
 		Error: r.Error(),
@@ -150,6 +154,7 @@ func (r *Result) Setup() *views.ViewContext[views.SetupData] {
 func (r *Result) Teardown() *views.ViewContext[views.TeardownData] {
 	r.mu.RLock()
 	defer r.mu.RUnlock()
+	verifhook.Yield("result.nested_read")
 
 	return r.views.Teardown(views.TeardownData{
 		Error: r.Error(),
